@@ -117,10 +117,11 @@ Fixpoint rs (sel : list nat) (frag : list fnode) (n : xn) : option xn :=
 
 Definition is_elem (n : xn) : bool := match n with E _ _ _ _ => true | _ => false end.
 
-(** children allowed directly under the document node: comments, PIs, at most one element *)
+(** children allowed directly under the document node: comments, PIs and exactly one element
+    (the output must be a well-formed document) *)
 Definition doc_children_ok (l : list xn) : bool :=
   forallb (fun n => match n with E _ _ _ _ | Cm _ | P _ _ => true | _ => false end) l
-  && Nat.leb (length (filter is_elem l)) 1.
+  && Nat.eqb (length (filter is_elem l)) 1.
 
 Definition replace_spec (sel : list nat) (frag : list fnode) (d : xdoc) : option xdoc :=
   if memb (did d) sel then
